@@ -89,7 +89,7 @@ def teardown(ctx):
 
 
 def cases(ctx):
-    n = 1200 if ctx.tier == 'quick' else 100000
+    n = 1200 if ctx.tier == 'quick' else 400000
     for i in range(n):
         yield {'i': i}
     for i in range(40 if ctx.tier == 'quick' else 2000):
